@@ -70,7 +70,7 @@ PROPS = {
         "explanation": "theorem toFrames_eq_spec (model of to_frames = independent chunking fragmenter for every payload up to 28672 bytes) + real to_frames; a differing line is a concrete C10 violation",
     },
     "C11": {
-        "groups": {"ev_enc": Q(240000, 2000000), "ev_dec": Q(240000, 1500000)},
+        "groups": {"ev_ref": Q(16000, 160000), "ev_enc": Q(240000, 2000000), "ev_dec": Q(240000, 1500000)},
         "rule": "events as in C03 (encode side, padding bytes masked); decoder packets as in C05, of which the ones the reference decoder accepts are compared by value; distinct by input text; non-trivial = kind with at least one field",
         "explanation": "theorems encode_eq_layout, refDecode_agrees, refDecode_encode + real to_packet vs the field-table layout and real try_from_packet vs the reference decoder",
     },
@@ -136,7 +136,7 @@ def nontrivial(group, inp, obs):
         return bool(m) and int(m.group(1)) > 8
     if g == "builder":
         return t[2].count(",") >= 1
-    if g in ("ev_enc", "ev_rt", "ev_xenc"):
+    if g in ("ev_enc", "ev_rt", "ev_xenc", "ev_ref"):
         return not t[1].startswith("k5")
     if g in ("ev_dec",):
         return len(t[2].split(":")[-1]) >= 4
